@@ -300,7 +300,8 @@ def gen_comment(rng, options, commands):
     for i in range(n):
         k = rng.choice(pool)
         if k == 'after_pull_request' or rng.random() < 0.04:
-            k = '%s=%s' % (k, rng.choice(['1', '7', 'abc', '']))
+            k = '%s=%s' % (k, rng.choice(['1', '7', 'abc', '', '12', '21',
+                                          '110', '007']))
         kws.append(k)
     style = rng.random()
     if style < 0.55:
